@@ -1091,7 +1091,7 @@ size_t ZSTDMT_sizeof_CCtx(ZSTDMT_CCtx* mtctx)
 {
     if (mtctx == NULL) return 0;   /* supports sizeof NULL */
     return sizeof(*mtctx)
-            + POOL_sizeof(mtctx->factory)
+            + (mtctx->providedFactory ? 0 : POOL_sizeof(mtctx->factory))   /* a pool given by ZSTD_CCtx_refThreadPool() belongs to the caller, and other threads may be resizing it */
             + ZSTDMT_sizeof_bufferPool(mtctx->bufPool)
             + ZSTDMT_sizeof_jobBuffers(mtctx)
             + (mtctx->jobs ? (mtctx->jobIDMask+1) * sizeof(ZSTDMT_jobDescription) : 0)
